@@ -246,6 +246,7 @@ func checkFrontEndWiring(c *report.Ctx) {
 			okB = false
 		}
 	})
+	checkOneBodyPerRequest(c)
 	c.Check("R-WIRE", an.FuncName(f)+"/returns-proxy-body", "what the caller receives is the body captured from the platform (or the platform's timeout message), nothing else", okB && n >= 2, fpos(f), n, "%d writes of the proxy body; other writes: %v", n, !okB)
 	// the proxy keeps exactly what was written
 	if pw := fn(c, "M/cmd/aws-lambda-rie", "(*ResponseWriterProxy).Write"); pw != nil {
